@@ -222,10 +222,10 @@ def _streams(ctx: Ctx, item):
             # source 170 -> destination 85 puts AA 55 into the identifier bytes of an addressed PGN (legal inside a packet)
             src, dest = draw(st.one_of(st.tuples(st.integers(0, 253), st.just(255)), st.just((170, 85))))
             out.append((d, draw(gen.payloads(d, mode="accepted", extra_bytes=False)), src, dest))
-        return out, draw(st.lists(st.integers(1, 400), max_size=10))
+        return out, draw(st.lists(st.integers(1, 400), max_size=10)), draw(st.sampled_from([0.0, 0.0, 1.5, 30.0]))
 
     def one(mc, fmt):
-        ms, rawcuts = mc
+        ms, rawcuts, gap = mc
         ctx.count()
         pks = []
         for d, (payload, nbytes, _), src, dest in ms:
@@ -238,7 +238,7 @@ def _streams(ctx: Ctx, item):
                 continue
         if not pks:
             return []
-        case = {"format": fmt, "messages": [[d.key, p[0].to_bytes(p[1], "little").hex(), src, dest] for d, p, src, dest in ms], "cuts": rawcuts}
+        case = {"format": fmt, "messages": [[d.key, p[0].to_bytes(p[1], "little").hex(), src, dest] for d, p, src, dest in ms], "cuts": rawcuts, "gap": gap}
         ctx.nt(repr(case))
         ctx.klass("stream:" + fmt)
         stream = b"".join(pks)
@@ -254,7 +254,7 @@ def _streams(ctx: Ctx, item):
             cl = [b"00:00:01.000 R " + p for p in pks] if fmt == "yd" else pks
             total = len(b"".join(cl))
             cuts = sorted({c % total for c in rawcuts if c % total}) if total > 1 else []
-            got = aio.client_frames(fmt, b"".join(cl), cuts=cuts)
+            got = aio.client_frames(fmt, b"".join(cl), cuts=cuts, gap=gap)
             exp = aio.reference_delivery(fmt, cl)
             ctx.klass("client_path_messages", len(exp))
             if got != exp:
@@ -295,7 +295,7 @@ def replay(ctx: Ctx, case):
         def fake(check, *a, **k):
             ms = [(db.by_key[m[0]], (int.from_bytes(bytes.fromhex(m[1]), "little"), len(bytes.fromhex(m[1])), []), m[2], m[3] if len(m) > 3 else 255)
                   for m in case["messages"]]
-            holder["out"] = check((ms, case.get("cuts", [])), case["format"])
+            holder["out"] = check((ms, case.get("cuts", []), case.get("gap", 0.0)), case["format"])
         sub.hyp = fake
         _streams(sub, ([m[0] for m in case["messages"]], 1))
         return holder.get("out", [])
